@@ -7,7 +7,9 @@ import (
 	"fmt"
 	"os"
 	"path/filepath"
+	"runtime"
 	"strconv"
+	"strings"
 )
 
 var drivers = map[string]func(r *Run){}
@@ -60,7 +62,40 @@ func main() {
 		fmt.Fprintln(os.Stderr, "unknown property", id)
 		os.Exit(2)
 	}
-	fn(r)
+	func() {
+		// a panic raised INSIDE the library while a driver runs it on generated input is a finding with a replay (the
+		// generator is deterministic: seed and tier reproduce the run), not a broken harness; a panic of the harness's own
+		// code is left alone (the check then reports that the run failed)
+		defer func() {
+			p := recover()
+			if p == nil {
+				return
+			}
+			var pcs [64]uintptr
+			n := runtime.Callers(2, pcs[:])
+			frames := runtime.CallersFrames(pcs[:n])
+			origin, stack := "", []string{}
+			for {
+				f, more := frames.Next()
+				if !strings.HasPrefix(f.Function, "runtime.") {
+					if origin == "" {
+						origin = f.Function
+					}
+					stack = append(stack, fmt.Sprintf("%s %s:%d", f.Function, f.File, f.Line))
+				}
+				if !more {
+					break
+				}
+			}
+			if !strings.HasPrefix(origin, "github.com/hedzr/logg") {
+				panic(p)
+			}
+			r.Fail(id+"/panic-in-library", fmt.Sprintf("the library panicked on generated input (after %d evaluations of this run): %v", r.Evals, p),
+				map[string]any{"kind": "panic-in-library", "panic": fmt.Sprint(p), "stack": stack, "seed": seed, "tier": *tier, "evaluations_before": r.Evals,
+					"rerun": fmt.Sprintf("VERIF_SEED=%d ./check %s --tier %s", seed, id, *tier)})
+		}()
+		fn(r)
+	}()
 	r.Finish()
 }
 
